@@ -3,7 +3,7 @@
    assigns to each.  Only definitions; the theorems of Properties/C14.v say that every
    [..._run] below equals [spec_run] over the corresponding list. *)
 From Coq Require Import List NArith Bool Arith.
-From Storage Require Import Base.Bytes Cursor.Core Cursor.BoltCursor Cursor.Typed Cursor.Filtered
+From Storage Require Import Base.Bytes Cursor.StrOrder Cursor.Core Cursor.BoltCursor Cursor.Typed Cursor.Filtered
   Cursor.Union Cursor.Tree Cursor.SetSym.
 Import ListNotations.
 Open Scope nat_scope.
@@ -70,3 +70,32 @@ Definition allof_ids (ents : assoc) (values : list str) : list str :=
   end.
 Definition anyof_ids (ents : assoc) (values : list str) : list str :=
   map fst (filter (fun e => existsb (fun v => mem v (snd e)) values) ents).
+
+(* ---- what Properties/C14.v states about a cursor kind ----------------------------------------------
+
+   A seekable cursor over the ascending set l in direction fw, given as its observation function
+   [run ops] (observation after the constructor and after every operation):
+   (1) refinement: for EVERY interleaving of Next and Seek the observations are those of the abstract
+       position machine (pos : option nat into dir_list fw l);
+   (2) enumeration: Next-only runs deliver exactly the elements in order, each once, then invalid
+       for ever (immediately for the empty set); no panic (the trace holds only OCur / OInvalid);
+   (3) Seek: right after Seek v - whatever happened before - the cursor is on the first element >= v
+       (forward) resp. the largest element <= v (reverse), or invalid if there is none. *)
+Definition seekable_props (run : list cop -> list obs) (fw : bool) (l : list str) : Prop :=
+  (forall ops, run ops = spec_ops fw l ops) /\
+  (forall n, run (repeat CNext n) = enum_trace (dir_list fw l) n) /\
+  (forall ops v, last (run (ops ++ [CSeek v])) OInvalid = obs_of_option (seek_target fw l v)).
+
+(* a cursor without Seek whose enumeration list is L: [run n] = observations of n Next calls *)
+Definition nextonly_props (run : nat -> list obs) (L : list str) : Prop :=
+  (forall leb n, run n = spec_run leb L (repeat CNext n)) /\ (forall n, run n = enum_trace L n).
+
+(* a conventional (direction aware) search-tree predicate *)
+Fixpoint is_bst (fw : bool) (t : tree) : Prop :=
+  match t with
+  | Leaf => True
+  | Node l x r =>
+      is_bst fw l /\ is_bst fw r /\
+      (forall y, In y (tkeys l) -> before fw y (gb_str x)) /\
+      (forall y, In y (tkeys r) -> before fw (gb_str x) y)
+  end.
